@@ -22,6 +22,7 @@ type SpecCtx struct {
 	Fr      *Frame // for named locals (loop invariants); nil in call-site contract application
 	InOld   bool
 	What    string
+	Pre     *State // state before the call (call-site assume clauses)
 }
 
 type specErr struct{ msg string }
@@ -586,6 +587,14 @@ func (c *SpecCtx) call(e *SExpr) *Val {
 		}
 		n := *c
 		n.InOld = true
+		return n.eval(e.Args[0])
+	case "pre":
+		if c.Pre == nil {
+			c.fail("pre() has no meaning here")
+		}
+		n := *c
+		n.St = c.Pre
+		n.InOld = false
 		return n.eval(e.Args[0])
 	case "len", "cap":
 		x := c.eval(e.Args[0])
